@@ -217,7 +217,9 @@ public:
 
         m_n = mat.rows();
         // Scale matrix prior to the Schur decomposition
-        const Scalar scale = mat.cwiseAbs().maxCoeff();
+        // For the zero matrix there is nothing to scale (and dividing by zero would produce NaN)
+        const Scalar max_coeff = mat.cwiseAbs().maxCoeff();
+        const Scalar scale = (max_coeff > Scalar(0)) ? max_coeff : Scalar(1);
 
         // Reduce to real Schur form
         m_schur.compute(mat / scale);
